@@ -982,7 +982,17 @@ func init() {
 											hdr.Set("X-Forwarded-Port", "80")
 										}
 									}
-									sr := e.do(reqSpec{Target: "/oauth2/start?rd=/after", Host: reqHost, Header: hdr})
+									peer := ""
+									if mode != "rp" && (n+len(host)+len(usr.Sub))%2 == 0 {
+										// reverse-proxy mode is OFF: whatever forwarding headers the client (or a local front proxy the operator did
+										// not declare) sends, and whatever kind of peer it is — a unix-socket listener's "@", loopback — the cookies are
+										// those of the Host the proxy was addressed with
+										hdr.Set("X-Forwarded-Host", hosts[(n+len(host))%len(hosts)])
+										hdr.Set("X-Forwarded-Proto", []string{"http", "https", "HTTP"}[(n+len(host))%3])
+										peer = []string{"@", "127.0.0.1:40123", "[::1]:40123", ""}[(n/2+len(host))%4]
+										c.count("c18:undeclared-forwarding-headers")
+									}
+									sr := e.do(reqSpec{Target: "/oauth2/start?rd=/after", Host: reqHost, Header: hdr, RemoteAddr: peer})
 									if sr.raw != nil {
 										b.apply(sr.raw)
 									}
@@ -991,7 +1001,7 @@ func init() {
 										continue
 									}
 									cu, _ := url.Parse(cb)
-									r := e.do(reqSpec{Target: cu.RequestURI(), Cookie: b.cookieHeader(), Host: reqHost, Header: hdr})
+									r := e.do(reqSpec{Target: cu.RequestURI(), Cookie: b.cookieHeader(), Host: reqHost, Header: hdr, RemoteAddr: peer})
 									if r.raw != nil {
 										b.apply(r.raw)
 									}
@@ -1010,8 +1020,8 @@ func init() {
 										e.do(reqSpec{Target: "/oauth2/sign_out", Cookie: tamperMid(ck), Host: reqHost, Header: hdr})
 										e.do(reqSpec{Target: "/app/y", Cookie: tamperMid(ck), Host: reqHost, Header: hdr})
 									}
-									e.do(reqSpec{Target: "/oauth2/sign_out", Cookie: b.cookieHeader(), Host: reqHost, Header: hdr})
-									e.do(reqSpec{Target: "/app/x", Cookie: "x=1", Host: reqHost, Header: hdr})
+									e.do(reqSpec{Target: "/oauth2/sign_out", Cookie: b.cookieHeader(), Host: reqHost, Header: hdr, RemoteAddr: peer})
+									e.do(reqSpec{Target: "/app/x", Cookie: "x=1", Host: reqHost, Header: hdr, RemoteAddr: peer})
 									c.casen(fmt.Sprintf("c18|%v|%v|%s|%d|%s|%s|%s|%s", secure, httponly, ss, di, path, mode, host, usr.Sub), fmt.Sprintf("%+v host=%s", cfg.CookieDomains, host))
 									c.count("c18:flow")
 								}
@@ -1071,6 +1081,6 @@ func init() {
 		}
 		cfgBoolSpellings(c, "C18", map[string]func(*options.Options) bool{"cookie-secure": func(o *options.Options) bool { return o.Cookie.Secure },
 			"cookie-httponly": func(o *options.Options) bool { return o.Cookie.HTTPOnly }, "cookie-csrf-per-request": func(o *options.Options) bool { return o.Cookie.CSRFPerRequest }})
-		c.close([]string{"c18:flow", "c18:set-cookie", "c18:refresh-reissue", "c18:minimal-many-groups", "c18:samesite-spelling-rejected", "cfgpath:bool-spelling"})
+		c.close([]string{"c18:flow", "c18:set-cookie", "c18:refresh-reissue", "c18:undeclared-forwarding-headers", "c18:minimal-many-groups", "c18:samesite-spelling-rejected", "cfgpath:bool-spelling"})
 	})
 }
